@@ -92,8 +92,13 @@ func vfLimNewProvider(t testing.TB) *vfLimProvider {
 	mux.HandleFunc("/token", func(w http.ResponseWriter, r *http.Request) {
 		atomic.AddInt64(&p.tokenHits, 1)
 		now := time.Now().Unix()
-		id := p.sign(t, map[string]interface{}{"iss": p.srv.URL, "aud": "vf-client", "sub": "vf-refreshed", "email": "r@example.com",
-			"iat": now - 1, "exp": now + 3600, "jti": fmt.Sprintf("vf-rf-%d", time.Now().UnixNano())})
+		claims := map[string]interface{}{"iss": p.srv.URL, "aud": "vf-client", "sub": "vf-refreshed", "email": "r@example.com",
+			"iat": now - 1, "exp": now + 3600, "jti": fmt.Sprintf("vf-rf-%d", time.Now().UnixNano())}
+		r.ParseForm()
+		if code := r.Form.Get("code"); strings.HasPrefix(code, "n:") { // authorization-code grant of the harness: the code names the nonce to return
+			claims["nonce"] = code[2:]
+		}
+		id := p.sign(t, claims)
 		w.Header().Set("Content-Type", "application/json")
 		json.NewEncoder(w).Encode(map[string]interface{}{"id_token": id, "access_token": "at", "refresh_token": fmt.Sprintf("rt-%d", now), "token_type": "Bearer", "expires_in": 3600})
 	})
@@ -390,6 +395,9 @@ type vfLimSupport struct {
 	SessionForwarded int `json:"session_forwarded"` // must be all of them
 	// a REFRESH is a full verification: with a token available it succeeds (control), with the limiter drained the
 	// refreshed ID token is refused without being verified and the request is not forwarded
+	// a burst of rateLimit complete logins on an idle instance: each login is ONE full verification, all are admitted
+	LoginBurst         int `json:"login_burst"`
+	LoginBurstAdmitted int `json:"login_burst_admitted"`
 	RefreshControlForwarded bool `json:"refresh_control_forwarded"`
 	RefreshRefusedWhenDrained bool `json:"refresh_refused_when_drained"`
 	RefreshDrainedStatus int `json:"refresh_drained_status"`
@@ -487,6 +495,31 @@ func vfLimSupportRun(t testing.TB, p *vfLimProvider) vfLimSupport {
 		}
 	}
 
+	// logins: rateLimit of them at once on an idle instance
+	{
+		const nb = 20
+		linst := vfLimNew(t, p.srv.URL, nb)
+		if vfLimWaitInit(linst, 10*time.Second) {
+			vfLimSetJWKCache(linst, &vfLimCountingJWKS{set: p.jwks()})
+			s.LoginBurst = nb
+			for i := 0; i < nb; i++ {
+				csrf, nonce := fmt.Sprintf("state-%d", i), fmt.Sprintf("nonce-%d", i)
+				cookies, err := vfLimMintLogin(linst, csrf, nonce)
+				if err != nil {
+					continue
+				}
+				req := httptest.NewRequest("GET", "http://app.example.test/cb?state="+csrf+"&code=n:"+nonce, nil)
+				for _, c := range cookies {
+					req.AddCookie(c)
+				}
+				rec := httptest.NewRecorder()
+				linst.ServeHTTP(rec, req)
+				if rec.Code == 302 {
+					s.LoginBurstAdmitted++
+				}
+			}
+		}
+	}
 	// refreshes are verifications: one with a token available (control), one with the limiter drained
 	{
 		rinst := vfLimNew(t, p.srv.URL, n)
@@ -521,7 +554,7 @@ func vfLimSupportRun(t testing.TB, p *vfLimProvider) vfLimSupport {
 	s.OK = s.ControlVerified && s.ControlJWKSCalls >= 1 && s.Drained && s.RefusedErr && s.RefusedJWKSCalls == 0 &&
 		!s.RefusedCached && s.RefusedCacheGrowth == 0 && !s.RefusedReplayRecord && s.AcceptedAfterRefill &&
 		s.CachedOK == s.CachedCalls && !s.CachedConsumedTokens && s.SessionRequests > 0 && s.SessionForwarded == s.SessionRequests &&
-		s.RefreshControlForwarded && s.RefreshRefusedWhenDrained
+		s.RefreshControlForwarded && s.RefreshRefusedWhenDrained && s.LoginBurst > 0 && s.LoginBurstAdmitted == s.LoginBurst
 	if !s.OK && s.Why == "" {
 		switch {
 		case !s.ControlVerified || s.ControlJWKSCalls < 1 || !s.Drained:
@@ -532,6 +565,8 @@ func vfLimSupportRun(t testing.TB, p *vfLimProvider) vfLimSupport {
 			s.Why = "a verification refused by the limiter performed verification work"
 		case s.SessionForwarded != s.SessionRequests || s.SessionRequests == 0:
 			s.Why = fmt.Sprintf("requests on already authenticated sessions were limited: %d sessions issued by another instance, one request each on a fresh instance with rateLimit %d, only %d forwarded", s.SessionRequests, n, s.SessionForwarded)
+		case s.LoginBurstAdmitted != s.LoginBurst || s.LoginBurst == 0:
+			s.Why = fmt.Sprintf("logins were admitted below the configured rate: a burst of %d complete logins on an idle instance with rateLimit %d, only %d completed", s.LoginBurst, s.LoginBurst, s.LoginBurstAdmitted)
 		case !s.RefreshControlForwarded:
 			s.Why = "harness precondition not met (a refresh with a limiter token available was not forwarded)"
 		case !s.RefreshRefusedWhenDrained:
